@@ -10,6 +10,22 @@ import pytato as pt
 SHAPE = (4,)
 
 
+def _mk_rank_tag():
+    from dataclasses import dataclass
+
+    from pytools.tag import Tag
+
+    @dataclass(frozen=True)
+    class OnRank(Tag):
+        """Makes the same-named inputs of different ranks structurally
+        different arrays (mappers cache by structural equality)."""
+        rank: int
+    return OnRank
+
+
+OnRank = _mk_rank_tag()
+
+
 class Fault:
     """One fault at one communication operation (global index = order in
     which the program text creates the operation on rank *rank*)."""
@@ -34,7 +50,8 @@ class RankCtx:
         self.sends: list[tuple] = []      # (data, dest, tag)
         self.recvs: list[tuple] = []      # (src, tag)
         self.staple = staple
-        self.x = pt.make_placeholder("x", SHAPE, np.float64)
+        self.x = pt.make_placeholder("x", SHAPE, np.float64).tagged(
+            OnRank(rank))
 
     def _other(self, r):
         for c in range(self.size):
